@@ -37,40 +37,75 @@ def _fixpoint(groups: List[Set[int]], robust: Set[Tuple[int, int]]) -> List[Set[
     return groups
 
 
+class PartitionWorld:
+    """The real partition code (and whatever helper it calls) evaluated on a real Dataset of n singleton elements, with
+    the cost table scripted: a cube realising the given components (a complete DAG between them, so their topological
+    order is unique) and the given set of robust cross pairs."""
+
+    def __init__(self, proj: Project):
+        from .datamodel import World
+        from ..engines.npmodel import Cube
+        self.Cube = Cube
+        self.proj = proj
+        self.w = World(proj)
+        self.w.rt.max_steps = 60000
+        self.w.rt.funcs["print"] = lambda ev, call: None
+        self.cube = None
+        self.log: Dict = {}
+        pba = proj.cls("corankco.algorithms.pairwisebasedalgorithm", "PairwiseBasedAlgorithm")
+
+        def pcm(args, kw):
+            self.log["args"] = list(args)
+            return self.cube
+        self.w.rt.overrides[proj.method(pba, "pairwise_cost_matrix").qualname] = pcm
+        self.SS = proj.cls("corankco.scoringscheme", "ScoringScheme")
+        self.OP = proj.cls(MOD, "OrderedPartition")
+        self.datasets: Dict[int, object] = {}
+        self.scheme = self.w.rt.new(self.SS, [[[0., 1., 1., 0., 1., 1.], [1., 1., 0., 1., 1., 0.]]], {})
+
+    def run(self, which: str, sccs: List[List[int]], robust: Set[Tuple[int, int]]):
+        n = sum(len(s) for s in sccs)
+        comp = {v: k for k, s in enumerate(sccs) for v in s}
+        data = [[[0.0, 0.0, 0.0] for _ in range(n)] for _ in range(n)]
+        for i in range(n):
+            for j in range(n):
+                if i == j:
+                    continue
+                if comp[i] == comp[j]:
+                    cell = [2.0, 2.0, 1.0]          # neither order is a cheapest placement: arcs both ways
+                elif comp[i] < comp[j]:
+                    cell = [0.0, 2.0, 1.0] if (i, j) in robust else [1.0, 2.0, 1.0]
+                else:
+                    cell = [2.0, 0.0, 1.0] if (j, i) in robust else [2.0, 1.0, 1.0]
+                data[i][j] = cell
+        self.cube = self.Cube(data)
+        self.cube.as_matrix = True
+        if n not in self.datasets:
+            self.datasets[n] = self.w.dataset([[{i} for i in range(n)]])
+        ds = self.datasets[n]
+        self.log.clear()
+        try:
+            part = self.w.rt.call_static(self.OP, which, ds, self.scheme)
+        except LoopBound:
+            return "LOOP", None, self.log
+        except Unsupported as exc:
+            raise AnalysisError(f"OrderedPartition.{which}: unsupported construct line {getattr(exc.node, 'lineno', '?')}: {exc}")
+        groups = [{e.attrs["_value"] for e in g} for g in part.attrs["_partition"]]
+        args = self.log.get("args") or [None, None]
+        pos = self.w.call(ds, "get_positions")
+        bid = self.w.call(ds, "get_bucket_ids")
+        wired = len(args) >= 2 and args[1] is self.scheme and (args[0] == pos or args[0] == bid)
+        return "PARTITION", groups, {"wired": wired, "args": args}
+
+
+_PW: Dict[int, PartitionWorld] = {}
+
+
 def eval_partition(proj: Project, which: str, sccs: List[List[int]], robust: Set[Tuple[int, int]]):
-    cls = proj.cls(MOD, "OrderedPartition")
-    f = proj.method(cls, which)
-    n = sum(len(s) for s in sccs)
-    elems = {i: f"e{i}" for i in range(n)}
-    # positions and bucket ids are interchangeable encodings for the cost table (C02/T3)
-    ds = Obj("DS", {"mapping_id_elem": elems}, {"get_positions": lambda ev, call, a, kw: Sym("POS"),
-                                                 "get_bucket_ids": lambda ev, call, a, kw: Sym("POS")})
-    graph = Obj("GRAPH", methods={"components": lambda ev, call, a, kw: [list(s) for s in sccs]})
-    log = {}
-
-    def with_robust(ev, call):
-        log["args"] = [ev.ev(a) for a in call.args]
-        return (graph, Sym("MATRIX"), set(robust))
-
-    def plain(ev, call):
-        log["args"] = [ev.ev(a) for a in call.args]
-        return (graph, Sym("MATRIX"))
-    captured = {}
-
-    def op_ctor(ev, call):
-        captured["partition"] = ev.ev(call.args[0])
-        return "PARTITION"
-    funcs = {"PairwiseBasedAlgorithm.graph_of_elements_with_robust_arcs": with_robust,
-             "PairwiseBasedAlgorithm.graph_of_elements": plain, "OrderedPartition": op_ctor}
-    evl = Evaluator({}, funcs)
-    evl.while_bound = 200
-    try:
-        ret = evl.call_user(f.node, [ds, Sym("SCHEME")])
-    except LoopBound:
-        return "LOOP", None, log
-    except Unsupported as exc:
-        raise AnalysisError(f"{f.qualname}: unsupported construct line {getattr(exc.node, 'lineno', '?')}: {exc}")
-    return ret, captured.get("partition"), log
+    if id(proj) not in _PW:
+        _PW.clear()
+        _PW[id(proj)] = PartitionWorld(proj)
+    return _PW[id(proj)].run(which, sccs, robust)
 
 
 def eval_consistent(proj: Project, partition: List[Set[str]], ranking: List[Set[str]], cons_nb: int):
@@ -93,6 +128,29 @@ def eval_consistent(proj: Project, partition: List[Set[str]], ranking: List[Set[
         return "LOOP"
     except Unsupported as exc:
         raise AnalysisError(f"{f.qualname}: unsupported construct line {getattr(exc.node, 'lineno', '?')}: {exc}")
+
+
+def _cascades(n: int):
+    """Sets of non-robust pairs over n singleton groups shaped like the cases the merge loop has to get right: a first
+    fusion at boundary (i, i+1), d earlier groups absorbed backwards one after the other (because of a pair with the
+    nearest or with the farthest member of the merged group), then the following boundary robust / non-robust through
+    an adjacent pair / non-robust only through the earliest member of the merged group; optionally a second, separate
+    fusion further right."""
+    out = set()
+    for i in range(n - 1):
+        for d in range(0, i + 1):
+            for far in (False, True):
+                base = {(i, i + 1)}
+                for k in range(1, d + 1):
+                    base.add((i - k, i + 1 if far else i - k + 1))
+                trails = [set()]
+                if i + 2 < n:
+                    trails += [{(i + 1, i + 2)}, {(i - d, i + 2)}]
+                    if i + 3 < n:
+                        trails += [{(i - d, i + 2), (i + 2, i + 3)}, {(i + 2, i + 3)}, {(i - d, i + 3)}]
+                for t in trails:
+                    out.add(tuple(sorted(base | t)))
+    return out
 
 
 def ordered_partitions(elems: List[str]):
@@ -129,18 +187,30 @@ def run(ctx) -> Result:
     ]
     if ctx.thorough:
         shapes.append([[0], [1], [2], [3], [4]])
+    # big consecutive groups (10 and 12 cross pairs between two groups), few missing arcs
+    big_shapes = [[[0, 1], [2, 3, 4, 5, 6]], [[0, 1, 2], [3, 4, 5, 6]], [[0], [1, 2, 3], [4, 5, 6, 7]]]
     n_worlds = 0
     bad = None
     loop = None
     wiring_bad = None
+    plans = []
     for sccs in shapes:
-        n = sum(len(s) for s in sccs)
-        groups = [set(s) for s in sccs]
         cross = [(x, y) for i in range(len(sccs)) for j in range(i + 1, len(sccs)) for x in sccs[i] for y in sccs[j]]
         # subsets of missing robust arcs among cross pairs (bounded), reverse arcs never robust
         subsets = itertools.chain.from_iterable(itertools.combinations(cross, r) for r in range(0, min(len(cross), 3) + 1))
         if len(cross) <= 6:
             subsets = itertools.chain.from_iterable(itertools.combinations(cross, r) for r in range(len(cross) + 1))
+        plans.append((sccs, list(subsets)))
+    for sccs in big_shapes:
+        cross = [(x, y) for i in range(len(sccs)) for j in range(i + 1, len(sccs)) for x in sccs[i] for y in sccs[j]]
+        subs = [()] + [(c,) for c in cross] + [c for c in itertools.combinations(cross, 2)][::(1 if ctx.thorough else 5)]
+        plans.append((sccs, subs))
+    for n_ in (5, 6, 7):
+        plans.append(([[i] for i in range(n_)], sorted(_cascades(n_))))
+    for sccs, subsets in plans:
+        n = sum(len(s) for s in sccs)
+        groups = [set(s) for s in sccs]
+        cross = [(x, y) for i in range(len(sccs)) for j in range(i + 1, len(sccs)) for x in sccs[i] for y in sccs[j]]
         for missing in subsets:
             n_worlds += 1
             robust = set(cross) - set(missing)
@@ -149,10 +219,10 @@ def run(ctx) -> Result:
                 if loop is None:
                     loop = (sccs, sorted(missing))
                 continue
-            want = [{f"e{i}" for i in g} for g in _fixpoint(groups, robust)]
+            want = [set(g) for g in _fixpoint(groups, robust)]
             if (ret != "PARTITION" or part != want) and bad is None:
                 bad = (sccs, sorted(missing), part, want)
-            if log.get("args") != [Sym("POS"), Sym("SCHEME")] and wiring_bad is None:
+            if not log.get("wired") and wiring_bad is None:
                 wiring_bad = log.get("args")
     res.check(loop is None, "Q2", "parfront_partition:terminates", pf.loc(),
               ok_detail=f"merge loop terminates on all {n_worlds} worlds",
@@ -166,13 +236,14 @@ def run(ctx) -> Result:
               ok_detail="graph and robust arcs computed from the dataset's positions and the given scheme",
               bad_detail=f"graph built from {wiring_bad!r}")
     res.extra["parfront_worlds"] = n_worlds
+    res.explored_threshold = 11         # up to 8 groups / 12 cross pairs between two consecutive groups are among the worlds
 
     # ------------------------------------------------------------------ Q5
     bad = None
     for sccs in shapes[:4]:
         ret, part, log = eval_partition(proj, "parcons_partition", sccs, set())
-        want = [{f"e{i}" for i in s} for s in sccs]
-        if (ret != "PARTITION" or part != want or log.get("args") != [Sym("POS"), Sym("SCHEME")]) and bad is None:
+        want = [set(s) for s in sccs]
+        if (ret != "PARTITION" or part != want or not log.get("wired")) and bad is None:
             bad = (sccs, part, log.get("args"))
     res.check(bad is None, "Q5", "parcons_partition:components-in-order", pc.loc(),
               ok_detail="one group per component, in the order the graph returns them, decoded with mapping_id_elem",
